@@ -1009,6 +1009,72 @@ def mon_C15(case):
     return []
 
 
+def mon_C17(case):
+    """redis pool: independent reading of the property on the history the harness reports with
+    every operation (operations, their real results, and every PING the scripted server saw
+    with the answer it was told to give)"""
+    o = case["out"] or ""
+    for x in case["extra"]:
+        if x.startswith("rpx ") and not x.startswith("rpx history"):
+            return [(0, x[4:])]
+    hist = next((x[len("rpx history "):] for x in case["extra"] if x.startswith("rpx history ")), None)
+    if hist is None or not case["in"].startswith("rp get"):
+        return []
+    ops = [h.strip() for h in hist.split(";")]
+    def parse_get(h):
+        res, _, rest = h[4:].partition("[")
+        pings = [p.split(":") for p in rest.rstrip("]").split(",") if p]
+        return res, pings
+    held, gone, idle, seen_pings, known = set(), set(), set(), [], set()
+    for h in ops[:-1]:
+        if h.startswith("get="):
+            res, pings = parse_get(h)
+            for cid, val, told in pings:
+                seen_pings.append(val)
+                idle.discard(cid)
+                if told != "right":
+                    gone.add(cid)
+            if res.startswith("ok:"):
+                held.add(res[3:])
+                idle.discard(res[3:])
+                known.add(res[3:])
+        elif h.startswith("ret "):
+            held.discard(h[4:])
+            idle.add(h[4:])
+        elif h.startswith("take "):
+            held.discard(h[5:])
+            gone.add(h[5:])
+    res, pings = parse_get(ops[-1])
+    r = kvs(o)
+    mx = int(r.get("max", "0"))
+    for cid, val, told in pings:
+        if val in seen_pings:
+            return [(0, f"PING value {val} had been used before on this pool ({hist})")]
+        seen_pings.append(val)
+        if cid not in idle:
+            return [(0, f"connection {cid} was pinged but was not idle ({hist})")]
+    accepted = [cid for cid, val, told in pings if told == "right"]
+    rejected = [cid for cid, val, told in pings if told != "right"]
+    if res.startswith("ok:"):
+        cid = res[3:]
+        if cid in gone or cid in rejected:
+            return [(0, f"connection {cid} was rejected / taken earlier and is handed out ({hist})")]
+        if cid in held:
+            return [(0, f"connection {cid} handed out twice at once ({hist})")]
+        if cid in known:
+            # a reused connection: it must be the one whose ping was answered correctly in this get
+            if accepted != [cid]:
+                return [(0, f"connection {cid} was reused without a correctly echoed PING in this get ({hist})")]
+        elif accepted:
+            return [(0, f"connection {accepted[0]} passed its check but a new connection {cid} was handed out ({hist})")]
+        if r.get("watched") != "0":
+            return [(0, f"connection {cid} handed out with WATCH state still set on the server ({hist})")]
+    else:
+        if len(held) < mx:
+            return [(0, f"get() failed with {res} although only {len(held)} of {mx} connections are checked out ({hist})")]
+    return []
+
+
 def mon_C19(case):
     """redis configs: independent re-statement of the property on the harness's own input
     description and the implementation's answer (never looks at the model)"""
@@ -1384,4 +1450,4 @@ def mon_C08(run):
     return bad[:1]
 
 
-MONITORS = {"C14": mon_C14, "C15": mon_C15, "C18": mon_C18, "C19": mon_C19, "C05": mon_C05, "C12": mon_C12, "C08": mon_C08, "C13": mon_C13, "C04": mon_C04, "C07": mon_C07, "C06": mon_C06, "C09": mon_C09, "C03": mon_C03, "C10": mon_C10, "C01": mon_C01, "C02": mon_C02, "C11": mon_C11}
+MONITORS = {"C17": mon_C17, "C14": mon_C14, "C15": mon_C15, "C18": mon_C18, "C19": mon_C19, "C05": mon_C05, "C12": mon_C12, "C08": mon_C08, "C13": mon_C13, "C04": mon_C04, "C07": mon_C07, "C06": mon_C06, "C09": mon_C09, "C03": mon_C03, "C10": mon_C10, "C01": mon_C01, "C02": mon_C02, "C11": mon_C11}
